@@ -81,8 +81,14 @@ func VerifC07_ScheduleSorted() {
 	noff := rt.I64("newoff")
 	rt.Assume(noff >= -1_000_000)
 	rt.Assume(noff < 1_000_000)
-	t.executeAt = time.Unix(baseSec+noff, 0)
-	t.addToSchedule(rt.Bool("overtime"))
+	if rt.Bool("viaSchedule") {
+		// the exported entry point (a zero time would un-schedule: not here)
+		t.Schedule(time.Unix(baseSec+noff, 0))
+		rt.Assert(t.executeAt.Equal(time.Unix(baseSec+noff, 0)), "post/execute-time-recorded")
+	} else {
+		t.executeAt = time.Unix(baseSec+noff, 0)
+		t.addToSchedule(rt.Bool("overtime"))
+	}
 	scheduleOK("post")
 	rt.Assert(t.scheduleListElement != nil, "post/task-is-listed")
 	want := n
@@ -236,15 +242,16 @@ func VerifC07_CancelledNeverStarts() {
 func VerifC07_NotEarly() {
 	rt.SchedYieldOnly(true)
 	m := c07Reset()
+	u := rt.Unit()
 	var startedAt time.Time
 	started := false
 	t0 := time.Now()
-	delay := time.Duration(1+rt.Choice("delay", 3)) * time.Minute
+	delay := time.Duration(1+rt.Choice("delay", 3)) * u
 	t := m.NewTask("t", func(context.Context, *Task) error {
 		started = true
 		startedAt = time.Now()
 		return nil
-	})
+	}).MaxDelay(3 * u)
 	t.Schedule(t0.Add(delay))
 	go func() {
 		for {
@@ -253,14 +260,67 @@ func VerifC07_NotEarly() {
 	}()
 	go taskQueueHandler()
 	go taskScheduleHandler()
-	time.Sleep(delay - time.Second)
+	time.Sleep(delay - u/2)
 	rt.Assert(!started, "notearly/not-started-before-scheduled-time")
-	time.Sleep(10 * time.Minute)
+	time.Sleep(6 * u)
 	rt.Assert(started, "notearly/started-after-scheduled-time")
 	if started {
 		rt.Assert(!startedAt.Before(t0.Add(delay)), "notearly/start-time>=scheduled-time")
 	}
 	rt.Reach("notearly-end")
+}
+
+// a task that is scheduled again while waiting follows its latest schedule:
+// not early (when moved later), not lost behind a later-due task (when moved
+// earlier)
+func VerifC07_Reschedule() {
+	rt.SchedYieldOnly(true)
+	m := c07Reset()
+	u := rt.Unit()
+	var startedAt time.Time
+	started, farStarted := false, false
+	t0 := time.Now()
+	d1 := time.Duration(1+rt.Choice("first", 3)) * u
+	d2 := time.Duration(1+rt.Choice("second", 4)) * u
+	t := m.NewTask("t", func(context.Context, *Task) error {
+		started = true
+		startedAt = time.Now()
+		return nil
+	}).MaxDelay(3 * u)
+	far := m.NewTask("far", func(context.Context, *Task) error {
+		farStarted = true
+		return nil
+	}).MaxDelay(3 * u)
+	withFar := rt.Bool("far")
+	if withFar {
+		far.Schedule(t0.Add(15 * u))
+	}
+	t.Schedule(t0.Add(d1))
+	go func() {
+		for {
+			taskTimeslot <- struct{}{}
+		}
+	}()
+	go taskQueueHandler()
+	go taskScheduleHandler()
+	if rt.Bool("handlerSawFirst") {
+		time.Sleep(u / 4) // the schedule handler has armed its timer for the first time
+	}
+	t.Schedule(t0.Add(d2))
+	if rt.Symbolic() {
+		scheduleOK("resched")
+	}
+	time.Sleep(t0.Add(d2 - u/2).Sub(time.Now()))
+	rt.Assert(!started, "resched/not-started-before-latest-scheduled-time")
+	time.Sleep(6 * u)
+	rt.Assert(started, "resched/started-after-latest-scheduled-time")
+	if started {
+		rt.Assert(!startedAt.Before(t0.Add(d2)), "resched/start-time>=latest-scheduled-time")
+	}
+	// a stale timer of the schedule handler (armed for t's maxDelay entry)
+	// must not start the next scheduled task before its time
+	rt.Assert(!farStarted, "resched/other-task-not-early")
+	rt.Reach("resched-end")
 }
 
 // ---- O5: no self-overlap when re-queued while executing; the re-submission is not lost ----
